@@ -43,10 +43,14 @@ class C06(Check):
             "shape/generate/include text (case 'parse'). A case is non-trivial when its main argument is longer "
             "than two octets.")
     partial = [
-        "lex_render (text -> tokens) is not proved: that the lexer turns a rendering into the zone's token skeleton "
-        "is checked per case (Coq lexer model on the plain rendering of every generated zone, case 'skel'; the "
-        "implementation's lexer by the oracle C06/lex-render/skeleton) and, for the richer spellings, through the "
-        "equivalence oracle on the implementation; zp_refines starts from the tokens",
+        "text -> tokens is proved for the rendering grammar of Proofs/LexRenderProofs.v (lex_render_plain, lex_render_layout: "
+        "one entry per line; any run of blanks / tabs / parentheses / CR between fields with at least one blank or tab, newlines "
+        "inside parentheses, a trailing comment) and composed with zp_refines (zone_text_denotes, zone_text_layout_denotes: the "
+        "parser applied to the lexer's output on the zone's TEXT yields the denoted records); blank and comment-only lines, "
+        "trailing blanks, comments inside parentheses and a second ';' in a comment are outside these theorems (witness "
+        "extra_token_layouts_refuted) and are covered by the equivalence oracle on the implementation; the side conditions "
+        "render_ok are facts about the lexer, each with a *_refuted witness where dropping it fails (class ANY, type None, "
+        "TTL texts that spell a mnemonic, words made only of escaped special octets)",
         "zp_refines covers records, $ORIGIN and $TTL; $GENERATE and $INCLUDE are separate theorems "
         "(generate_expand on the generated text, include_keeps_origin / include_splice on one step of Next) and "
         "are composed with the rest by correspondence only",
